@@ -10,6 +10,8 @@
 -/
 import PandoraModel.Lemmas.MCMasked
 import PandoraModel.Lemmas.MCCensus
+import PandoraModel.Lemmas.MCCensusBits
+import PandoraModel.Lemmas.MCGrid
 import PandoraModel.Generated.MatchingCostConsts
 
 namespace Pandora.C02
@@ -83,14 +85,16 @@ theorem rawOK_sad_ssd (x : Input) (h : Shape x) (hm : x.meas = .sad ∨ x.meas =
 
 /-- zncc: the quotient built from the cumulative-sum mean and variance rasters is the zero-mean normalised
     cross-correlation `cov / √(varL·varR)` (carried symbolically), `0` when a variance vanishes; hypothesis:
-    the `1e-15` threshold of `compute_std_raster` does not fire on a non-zero variance -/
+    the `1e-15` threshold of `compute_std_raster` does not fire on a non-zero variance of a window that lies
+    in the image -/
 theorem rawOK_zncc (x : Input) (h : Shape x) (hm : x.meas = .zncc)
-    (hnt : ∀ k r c : Int, NoTiny x x.L.px r c ∧ NoTiny x (fun a b => interpR x.R x.sp k a b) r c) :
+    (hnt : ∀ k r c : Int, LeftInside x r c →
+      NoTiny x x.L.px r c ∧ NoTiny x (fun a b => interpR x.R x.sp k a b) r c) :
     RawOK x (valueSpec x) := by
   intro k r c
   unfold rawPlane
   simp only [hm]
-  exact rawZncc_eq x h hm k r c (hnt k r c).1 (hnt k r c).2
+  exact rawZncc_eq x h hm k r c (fun hl => (hnt k r c hl).1) (fun hl => (hnt k r c hl).2)
 
 /-- **C02, sad and ssd.** -/
 theorem costVolume_eq_spec_sad_ssd (x : Input) (h : Shape x) (hm : x.meas = .sad ∨ x.meas = .ssd)
@@ -101,38 +105,51 @@ theorem costVolume_eq_spec_sad_ssd (x : Input) (h : Shape x) (hm : x.meas = .sad
 
 /-- **C02, zncc.** -/
 theorem costVolume_eq_spec_zncc (x : Input) (h : Shape x) (hm : x.meas = .zncc)
-    (hnt : ∀ k r c : Int, NoTiny x x.L.px r c ∧ NoTiny x (fun a b => interpR x.R x.sp k a b) r c)
+    (hnt : ∀ k r c : Int, LeftInside x r c →
+      NoTiny x x.L.px r c ∧ NoTiny x (fun a b => interpR x.R x.sp k a b) r c)
     (hg : gridMin x.dminG x.L.rows x.L.cols ≤ gridMax x.dmaxG x.L.rows x.L.cols) (r c : Int) (j : Nat)
     (hj : j < nDisp (gridMin x.dminG x.L.rows x.L.cols) (gridMax x.dmaxG x.L.rows x.L.cols) x.sp) :
     costVolume x r c j = specVolume x r c j :=
   costVolume_eq_spec_of_raw x h hg (rawOK_zncc x h hm hnt) r c j hj
 
-/-! ### census
+/-! ### census -/
 
-  Full-strength statement (not proved in Lean for 25-bit strings):
-      `costVolume x r c j = specVolume x r c j`  for `x.meas = .census`,
-  i.e. `popcount32b (censusBits w L … ^^^ censusBits w R̃ …) = winCount (fun a b => (L a b > L r c) != (R̃ a b > R̃ r c))`.
-  What is proved: everything except that last bit-level identity — the NaN structure (all seven causes), the
-  index arithmetic (left window on `(r, c)`, right window on `(r, c + d)` of the interpolated image, truncated
-  census coordinates, cropped placement), the masks and the interval — with the value kept in the form the code
-  computes it (`valueCensusBits`).  The identity itself is tied to the code by `popcount_9bit` below (every
-  argument a 3×3 census can produce, `decide`), by the exhaustive evaluation of the real `Census.popcount32b`
-  on all 2^25 arguments (thorough tier; stratified sample in the quick tier) and by the correspondence run, which
-  compares the implementation with the textbook Hamming distance (`valueSpec`) cell by cell. -/
-
-theorem rawOK_census (x : Input) (h : Shape x) (hm : x.meas = .census) : RawOK x (valueCensusBits x) := by
+/-- census, the code's own form of the value: popcount of the xor of the two census strings at the right places -/
+theorem rawOK_census_bits (x : Input) (h : Shape x) (hm : x.meas = .census) : RawOK x (valueCensusBits x) := by
   intro k r c
   unfold rawPlane
   simp only [hm]
   exact rawCensus_eq x h k r c
 
-/-- **C02, census (partial: the value is kept as popcount of the xor of the two census strings).** -/
-theorem costVolume_eq_spec_census_partial (x : Input) (h : Shape x) (hm : x.meas = .census)
+/-- census: bit-packed comparison strings of the (truncated) census images, xor and the `popcount32b` bit
+    trick give the Hamming distance of the two strings of comparisons "neighbour > centre"; windows 3 and 5 -/
+theorem rawOK_census (x : Input) (h : Shape x) (hm : x.meas = .census) (hw : x.w = 3 ∨ x.w = 5) :
+    RawOK x (valueSpec x) := by
+  intro k r c
+  rw [rawOK_census_bits x h hm k r c]
+  split
+  · exact valueCensusBits_eq x hm hw r c k
+  · rfl
+
+/-- **C02, census.** -/
+theorem costVolume_eq_spec_census (x : Input) (h : Shape x) (hm : x.meas = .census) (hw : x.w = 3 ∨ x.w = 5)
     (hg : gridMin x.dminG x.L.rows x.L.cols ≤ gridMax x.dmaxG x.L.rows x.L.cols) (r c : Int) (j : Nat)
     (hj : j < nDisp (gridMin x.dminG x.L.rows x.L.cols) (gridMax x.dmaxG x.L.rows x.L.cols) x.sp) :
-    costVolume x r c j =
-      specCellWith (valueCensusBits x) x r c (gridMin x.dminG x.L.rows x.L.cols * (x.sp : Int) + j) :=
-  costVolume_eq_specWith_of_raw x h (valueCensusBits x) hg (rawOK_census x h hm) r c j hj
+    costVolume x r c j = specVolume x r c j :=
+  costVolume_eq_spec_of_raw x h hg (rawOK_census x h hm hw) r c j hj
+
+/-- `popcount_correct`: `Census.popcount32b` returns the number of set bits — here for any 32-bit argument
+    written with sixteen base-4 digits (`pop2 d` = number of set bits of the digit `d`) -/
+theorem popcount_correct (d0 d1 d2 d3 d4 d5 d6 d7 d8 d9 d10 d11 d12 d13 d14 d15 : Nat)
+    (h0 : d0 < 4) (h1 : d1 < 4) (h2 : d2 < 4) (h3 : d3 < 4) (h4 : d4 < 4) (h5 : d5 < 4) (h6 : d6 < 4) (h7 : d7 < 4)
+    (h8 : d8 < 4) (h9 : d9 < 4) (h10 : d10 < 4) (h11 : d11 < 4) (h12 : d12 < 4) (h13 : d13 < 4) (h14 : d14 < 4)
+    (h15 : d15 < 4) :
+    popcount32b (Popcount.digits 4 [d0, d1, d2, d3, d4, d5, d6, d7, d8, d9, d10, d11, d12, d13, d14, d15]) =
+      Popcount.pop2 d0 + Popcount.pop2 d1 + Popcount.pop2 d2 + Popcount.pop2 d3 + Popcount.pop2 d4 + Popcount.pop2 d5 +
+        Popcount.pop2 d6 + Popcount.pop2 d7 + Popcount.pop2 d8 + Popcount.pop2 d9 + Popcount.pop2 d10 +
+        Popcount.pop2 d11 + Popcount.pop2 d12 + Popcount.pop2 d13 + Popcount.pop2 d14 + Popcount.pop2 d15 :=
+  Popcount.popcount32b_digits d0 d1 d2 d3 d4 d5 d6 d7 d8 d9 d10 d11 d12 d13 d14 d15
+    h0 h1 h2 h3 h4 h5 h6 h7 h8 h9 h10 h11 h12 h13 h14 h15
 
 /-- `nan_iff_not_computable` for every measure, zncc included without the variance hypothesis: the cost is NaN
     exactly when one of the causes of the statement holds -/
@@ -150,13 +167,99 @@ theorem nan_iff_not_computable (x : Input) (h : Shape x) (val : Int → Int → 
   · rename_i hc
     simp [hc, Cell.isNan]
 
-/-- the Hamming weight computed by `popcount32b` is the number of set bits, for every 9-bit argument
-    (everything a 3×3 census xor can produce) -/
-def bitCount : Nat → Nat → Nat
-  | 0, _ => 0
-  | n + 1, x => x % 2 + bitCount n (x / 2)
+/-! ### 2. One statement for the executable well-formedness predicate `wf` -/
 
-set_option maxRecDepth 20000 in
-theorem popcount_9bit : ∀ x : Fin 512, popcount32b x.val = bitCount 9 x.val := by decide +kernel
+theorem shape_of_wf (x : Input) (h : wf x = true) : Shape x := by
+  unfold wf at h
+  simp only [Bool.and_eq_true, decide_eq_true_eq] at h
+  obtain ⟨⟨⟨⟨⟨⟨⟨⟨⟨h1, h2⟩, _⟩, h4⟩, h5⟩, h6⟩, _⟩, _⟩, _⟩, _⟩ := h
+  exact ⟨h1, h2, h5, h6, by omega⟩
+
+theorem gridOK_of_wf (x : Input) (h : wf x = true) :
+    gridMin x.dminG x.L.rows x.L.cols ≤ gridMax x.dmaxG x.L.rows x.L.cols := by
+  have hsh := shape_of_wf x h
+  unfold wf at h
+  simp only [Bool.and_eq_true, decide_eq_true_eq] at h
+  obtain ⟨⟨⟨⟨⟨⟨⟨⟨⟨h1, _⟩, h3⟩, _⟩, _⟩, _⟩, h7⟩, _⟩, _⟩, _⟩ := h
+  have hrows : 0 < x.L.rows := by omega
+  apply gridMin_le_gridMax x.dminG x.dmaxG x.L.rows x.L.cols hrows hsh.cols_pos
+  unfold gridOrdered at h7
+  have h0 := (allZ_iff_int _ _ _).mp h7 0 (le_refl _) (by omega)
+  have h00 := (allZ_iff_int _ _ _).mp h0 0 (le_refl _) (by have := hsh.cols_pos; omega)
+  simpa using h00
+
+theorem census_window_of_wf (x : Input) (h : wf x = true) (hm : x.meas = .census) : x.w = 3 ∨ x.w = 5 := by
+  unfold wf at h
+  simp only [Bool.and_eq_true, Bool.or_eq_true, decide_eq_true_eq] at h
+  rcases h.2 with hne | hw
+  · simp [hm] at hne
+  · exact hw
+
+/-- the zncc hypothesis as the Bool the driver evaluates (`noTinyVariance`, per sampled disparity) -/
+theorem noTiny_of_bool (x : Input) (k r c : Int) (hr : 0 ≤ r ∧ r < x.L.rows) (hc : 0 ≤ c ∧ c < x.L.cols)
+    (h : noTinyVariance x k = true) :
+    NoTiny x x.L.px r c ∧ NoTiny x (fun a b => interpR x.R x.sp k a b) r c := by
+  unfold noTinyVariance at h
+  have h1 := (allZ_iff_int _ _ _).mp h r hr.1 (by omega)
+  have h2 := (allZ_iff_int _ _ _).mp h1 c hc.1 (by omega)
+  simp only [Bool.and_eq_true, decide_eq_true_eq] at h2
+  exact ⟨h2.1, h2.2⟩
+
+/-- **C02 (all measures).**  For every input accepted by the decidable predicate `wf` (odd window, positive
+    subpix, images of the same size at least as large as the window, per-pixel `min ≤ max`, census window 3 or 5)
+    — and, for zncc, such that the `1e-15` variance threshold never fires on a non-zero variance
+    (`noTinyVariance`, decidable) — the cost volume computed by the model of the code equals, cell by cell, the
+    volume the statement prescribes: the textbook measure where the cost is computable, NaN otherwise. -/
+theorem costVolume_eq_spec (x : Input) (hwf : wf x = true)
+    (hz : x.meas = .zncc → ∀ k : Int, noTinyVariance x k = true) (r c : Int) (j : Nat)
+    (hj : j < nDisp (gridMin x.dminG x.L.rows x.L.cols) (gridMax x.dmaxG x.L.rows x.L.cols) x.sp) :
+    costVolume x r c j = specVolume x r c j := by
+  have hsh := shape_of_wf x hwf
+  have hg := gridOK_of_wf x hwf
+  cases hm : x.meas with
+  | sad => exact costVolume_eq_spec_sad_ssd x hsh (Or.inl hm) hg r c j hj
+  | ssd => exact costVolume_eq_spec_sad_ssd x hsh (Or.inr hm) hg r c j hj
+  | census => exact costVolume_eq_spec_census x hsh hm (census_window_of_wf x hwf hm) hg r c j hj
+  | zncc =>
+    refine costVolume_eq_spec_zncc x hsh hm ?_ hg r c j hj
+    intro k r' c' hl
+    obtain ⟨hl1, hl2, hl3, hl4⟩ := hl
+    exact noTiny_of_bool x k r' c' ⟨by omega, by omega⟩ ⟨by omega, by omega⟩ (hz hm k)
+
+/-! ### 3. Non-vacuity: a concrete input satisfies the hypotheses and has computable and non-computable cells -/
+
+namespace Example
+
+def exL : Img := { rows := 3, cols := 4, px := fun r c => ((r * r + 2 * c : Int) : Rat) }
+def exR : Img := { rows := 3, cols := 4, px := fun r c => ((r * r + 2 * c - 1 : Int) : Rat) }
+/-- one invalid pixel (code 2) at row 1, column 2 -/
+def exMask : Mask := { present := true, code := fun r c => if r = 1 ∧ c = 2 then 2 else 0, valid := 0, nodata := 1 }
+/-- 3×4 pair, window 3, subpix 2, per-pixel grids `[-1, 1]` (`[0, 1]` in column 0), masks on both sides -/
+def exIn (m : Measure) : Input where
+  meas := m
+  w := 3
+  sp := 2
+  L := exL
+  R := exR
+  mL := exMask
+  mR := exMask
+  dminG := fun _ c => if c = 0 then 0 else -1
+  dmaxG := fun _ _ => 1
+
+example : wf (exIn .sad) = true := by decide
+example : wf (exIn .ssd) = true := by decide
+example : wf (exIn .census) = true := by decide
+example : wf (exIn .zncc) = true := by decide
+example : cause (exIn .sad) 1 1 0 = .computable := by decide
+example : cause (exIn .sad) 1 1 2 = .maskedRight := by decide
+example : cause (exIn .sad) 1 1 (-1) = .windowRight := by decide
+example : cause (exIn .sad) 0 1 0 = .windowLeft := by decide
+example : cause (exIn .sad) 1 0 (-2) = .outsideInterval := by decide
+example : NoTiny (exIn .zncc) (exIn .zncc).L.px 1 1 := by
+  unfold NoTiny winSum
+  simp only [exIn, exL, half, sumZ, tiny, ratAbs]
+  norm_num
+
+end Example
 
 end Pandora.C02
